@@ -16,10 +16,10 @@ import (
 // its entry is in the persistent logs of a majority of the voters.
 
 type Durable struct {
-	A        *Apply
-	checked  map[uint64]bool // indices already checked at first apply
-	ackSeen  map[int]bool
-	Checks   int
+	A       *Apply
+	checked map[uint64]bool // indices already checked at first apply
+	ackSeen map[int]bool
+	Checks  int
 }
 
 func (m *Durable) Attach(c *sim.Cluster) {
@@ -89,9 +89,9 @@ func (m *Durable) Step(c *sim.Cluster) *common.Violation {
 // C03: replicated operations are linearizable and futures tell the truth.
 
 type Linear struct {
-	A      *Apply
-	done   map[int]bool
-	Acks   int
+	A    *Apply
+	done map[int]bool
+	Acks int
 }
 
 func (m *Linear) Attach(c *sim.Cluster) { m.done = map[int]bool{} }
@@ -175,7 +175,7 @@ type Reads struct {
 	done   map[int]bool
 	Served int
 	// classification of a stale read (root-cause discriminators, DESIGN 2.7)
-	invokedAt map[int]int    // read id -> send clock at invocation
+	invokedAt map[int]int     // read id -> send clock at invocation
 	replies   map[int][]aeAck // read id -> AppendEntries replies its node received while it was pending
 }
 
